@@ -30,10 +30,12 @@ def _worker(case):
     pygam = common.import_pygam()
     from pygam.callbacks import CallBack
     try:
-        b = fitgen.build(case, pygam)
+        b = fitgen.build(case, pygam, opt_in=True)
     except ValueError as e:
         return dict(case=case, status='generator-rejected', msg=str(e)[:80])
     gam, X, y, w = b['gam'], b['X'], b['y'], b['weights']
+    expo = b.get('exposure')
+    fkw = {} if expo is None else dict(exposure=expo)
 
     class Capture(CallBack):
         def __init__(self):
@@ -63,17 +65,17 @@ def _worker(case):
         saved = [s_.lam for s_ in leaves()]
         for s_ in leaves():
             s_.lam = [(1e3 if v < 1.0 else 1e-3) for v in np.atleast_1d(s_.lam)]
-        st0, _ = fitgen.fit_quiet(gam, X, y, w)
+        st0, _ = fitgen.fit_quiet(gam, X, y, w, **fkw)
         for s_, v in zip(leaves(), saved):
             s_.lam = v
         hist += ':' + st0
     elif hist == 'refit-data':
         h = max(X.shape[0] // 2, 1)
-        st0, _ = fitgen.fit_quiet(gam, X[:h], y[:h], None if w is None else w[:h])
+        st0, _ = fitgen.fit_quiet(gam, X[:h], y[:h], None if w is None else w[:h], **({} if expo is None else dict(exposure=expo[:h])))
         hist += ':' + st0
     cap = Capture()
     gam.callbacks = list(gam.callbacks) + [cap]
-    status, out = fitgen.fit_quiet(gam, X, y, w)
+    status, out = fitgen.fit_quiet(gam, X, y, w, **fkw)
     res = dict(case=case, status=status, msg=out if status != 'ok' else '', desc=b['desc'], history=hist)
     if status != 'ok':
         return res
@@ -91,13 +93,18 @@ def _worker(case):
     if gam.terms.hasconstraint:
         C = np.asarray(gam.terms.build_constraints(coef, gam._constraint_lam, gam._constraint_l2).todense(), dtype=float)
         A = A + C
+    if expo is not None:
+        # documented meaning of exposure: the model is for the RATE y / e, observed with weight w * e
+        w = (np.ones(n) if w is None else np.asarray(w, dtype=float)) * expo
+        y = np.asarray(y, dtype=float) / expo
     wv = np.ones(n) if w is None else np.asarray(w, dtype=np.float32).astype(float)
     L = cap.last
     keep = L['mask'].astype(bool)
     dist, link, levels = case['dist'], case['link'], float(case['levels'])
     tau = case['expectile']
     res.update(n=n, m=m, B=B, A=A, y=np.asarray(y, dtype=float), w=wv, keep=keep, coef=coef,
-               pred=np.asarray(gam.predict_mu(X), dtype=float), has_constraint=bool(gam.terms.hasconstraint))
+               pred=np.asarray(gam.predict_mu(X), dtype=float), has_constraint=bool(gam.terms.hasconstraint),
+               exposure=(expo is not None), colmax=float(np.abs(B).max()) if B.size else 0.0)
 
     # ---- LAPACK / Cholesky contracts on the loop locals of the last iteration
     k = L['R'].shape[0]
@@ -159,6 +166,7 @@ def _worker(case):
             res['lp_scale'] = float(max(np.linalg.norm(eta), zw, lp_floor) + 1e-300)
             res['rhs_norm'] = float(np.linalg.norm(rhs))
             res['rhs_abs_norm'] = float(np.linalg.norm(np.abs(B).T @ np.where(keep, np.abs(wk / (V * g * g) * z), 0.0)))
+            res['Abeta_abs_norm'] = float(np.linalg.norm(np.abs(A) @ np.abs(coef)))
         with np.errstate(all='ignore'):
             W2 = np.where(keep, wk / (V * g * g), 0.0)
             N = B.T @ (W2[:, None] * B) + A
@@ -166,13 +174,22 @@ def _worker(case):
                 res['status'] = 'nonfinite-oracle'
                 return res
             ev = np.linalg.eigvalsh((N + N.T) / 2)
-            res['cond'] = float(ev.max() / max(ev.min(), 1e-300))
+            res['cond_raw'] = float(ev.max() / max(ev.min(), 1e-300))
+            # conditioning after symmetric diagonal equilibration (N -> D N D, D = diag(N)^-1/2): a column of huge magnitude
+            # (a raw timestamp in a linear term) inflates cond(N) by its square without making the problem any harder for a
+            # QR / SVD based solve, which is invariant to column scaling; thresholds follow the equilibrated number
+            dg = np.sqrt(np.clip(np.diag(N), 1e-300, None))
+            Neq = N / dg[:, None] / dg[None, :]
+            eve = np.linalg.eigvalsh((Neq + Neq.T) / 2)
+            res['cond'] = float(eve.max() / max(eve.min(), 1e-300))
             # right-hand side measured without cancellation (|B|'W^2|z|): two identical rows with opposite responses have
             # B'W^2 z = 0 and optimum beta = 0 exactly, and a backward error relative to |rhs| + |N||beta| would be noise / noise
+            rhs_abs_vec = np.abs(B).T @ np.where(keep, np.abs(wk / (V * g * g) * z), 0.0)
             res['be_norm'] = float(np.linalg.norm(grad) / (2 * (np.linalg.norm(N, 2) * np.linalg.norm(coef) + res['rhs_abs_norm']) + 1e-300))
+            res['be_eq'] = float(np.linalg.norm(grad / dg) / (2 * (np.linalg.norm(Neq, 2) * np.linalg.norm(coef * dg) + np.linalg.norm(rhs_abs_vec / dg)) + 1e-300))
             res['be_comp'] = float(np.max(np.abs(grad) / (2 * (np.abs(N) @ np.abs(coef) + np.abs(rhs)) + 1e-300)))
             try:
-                delta = np.linalg.solve(N, grad / 2)
+                delta = np.linalg.solve(Neq, grad / dg / 2) / dg
                 res['newton_lp'] = float(np.linalg.norm(B @ delta) / res['lp_scale'])
                 res['newton_energy'] = float(np.sqrt(abs(delta @ N @ delta) / (abs(coef @ N @ coef) + 1e-300)))
             except np.linalg.LinAlgError:
@@ -210,7 +227,9 @@ def _worker(case):
     if dist == 'normal' and link == 'identity' and tau is None and not gam.terms.hasconstraint:
         Wm = wv * keep
         try:
-            beta_ls = np.linalg.solve(B.T @ (Wm[:, None] * B) + A, B.T @ (Wm * y))
+            Nls = B.T @ (Wm[:, None] * B) + A
+            dls = np.sqrt(np.clip(np.diag(Nls), 1e-300, None))
+            beta_ls = np.linalg.solve(Nls / dls[:, None] / dls[None, :], (B.T @ (Wm * y)) / dls) / dls
             res['closed_form_pred'] = B @ beta_ls
         except np.linalg.LinAlgError:
             pass        # normal matrix singular to working precision: no closed form to compare with (cond counter says so)
@@ -243,6 +262,7 @@ def run(ctx):
         ctx.count('fit status', r['status'] + ('/converged' if r.get('converged') else ('/not-converged' if r['status'] == 'ok' else '')))
         ctx.count('pair', '%s %s/%s' % (c['cls'], c['dist'], c['link']))
         ctx.count('response units', '%g' % c.get('y_scale', 1.0))
+        ctx.count('feature units / exposure', '%s%s' % (c.get('feature_units', 'plain'), ' + exposure' if r.get('exposure') else ''))
         ctx.count('history before the judged fit', r.get('history', 'none'))
         if r['status'] not in ('ok', 'ValueError', 'generator-rejected', 'nonfinite-coef', 'nonfinite-oracle'):
             ctx.case(st_or, dict(case=c), nontrivial=True)
@@ -276,15 +296,23 @@ def run(ctx):
         # |grad| / (2 (|N| |beta| + |rhs|)) <= 1e-6 (clean tree: <= 1.5e-8 over 355 fits), and (ii) the Newton step the
         # gradient still asks for moves the linear predictor by <= thr = max(1e-6, 10 eps cond(N)) relatively
         # (clean tree: <= eps cond); problems with 10 eps cond(N) > 1e-3 are too ill-conditioned for (ii) to mean anything.
-        thr = max(1e-6, 10 * EPS * r['cond'])
+        # pyGAM solves the un-equilibrated system, so (ii) is judged against the RAW condition number; a problem that is
+        # only badly SCALED (a raw timestamp in a linear term: cond_raw ~ 1e25, equilibrated cond ~ 1e3) is judged by the
+        # coarse criterion (iii): the equilibrated backward error and the Newton step must stay below 1e-3 (clean tree:
+        # <= 2.2e-5 on such problems; a solve that drops directions is off by O(1))
+        thr = max(1e-6, 10 * EPS * r.get('cond_raw', r['cond']))
         judged_ii = thr <= 1e-3
-        ctx.count('conditioning', 'cond<=4.5e11 (judged)' if judged_ii else 'ill-conditioned ((ii) not judged)')
+        judged_iii = (not judged_ii) and 10 * EPS * r['cond'] <= 1e-3
+        ctx.count('conditioning', 'cond<=4.5e11 (judged)' if judged_ii else ('badly scaled only: coarse criterion (iii)' if judged_iii else 'ill-conditioned ((ii) not judged)'))
         fd_ok = all(abs(num - ana) <= 1e-4 * sc + 1e-6 * abs(ana) for (num, ana, sc) in r['fd'])
         oracle_bad = None
         if not (r['be_norm'] <= 1e-6):
             oracle_bad = 'normwise backward error of the score equation %.3g > 1e-6' % r['be_norm']
         elif judged_ii and not (r['newton_lp'] <= thr):
             oracle_bad = 'remaining Newton step moves the linear predictor by %.3g > %.3g (relative)' % (r['newton_lp'], thr)
+        elif judged_iii and not (r['newton_lp'] <= 1e-3 and r.get('be_eq', 0.0) <= 1e-3):
+            oracle_bad = ('badly scaled but well-posed problem (equilibrated cond %.3g): Newton step moves the linear predictor by %.3g, equilibrated backward error %.3g (> 1e-3)'
+                          % (r['cond'], r['newton_lp'], r.get('be_eq', 0.0)))
         if not fd_ok:
             ctx.count('oracle', 'fd-mismatch of the analytic gradient (non-smooth point or cancellation)')
         if 'closed_form_pred' in r and oracle_bad is None:
@@ -295,10 +323,13 @@ def run(ctx):
             ctx.fail(st_or, dict(kind='stationarity', cls=c['cls'], pair='%s/%s' % (c['dist'], c['link']), nm=('n<m' if r['n'] < r['m'] else 'n>=m')), dict(case=c, n=r['n'], m=r['m']),
                      observed=dict(reason=oracle_bad, n_iter=r['n_iter'], last_diff=r['last_diff']), expected='stationary point of the penalised criterion / closed-form solution',
                      oracle='NumPy gradient of the penalised deviance at coef_')
-        # ---- model step
+        # ---- model step (the Float model solves the RAW normal equations by Gaussian elimination: its accuracy follows the
+        # raw condition number, not the equilibrated one the oracle uses)
+        thr_m = max(1e-6, 10 * EPS * r.get('cond_raw', r['cond']))
+        judged_m = thr_m <= 1e-3
         ctx.case(st, sig, nontrivial=nontriv, sample=small)
         if out == 'bad-op':
-            if judged_ii:
+            if judged_m:
                 ctx.disagree(st, sig, 'n/a', 'bad-op', 'model could not evaluate the step (singular normal matrix or malformed op)')
             else:
                 # 10 eps cond(N) > 1e-3: the normal matrix is singular to working precision, Gaussian elimination in the
@@ -309,18 +340,20 @@ def run(ctx):
         rel_res, rel_lp, beta1 = vals[0], vals[1], np.array(vals[2:])
         # the model reports both relative to |rhs| / |eta|; re-express them on the cancellation-free scales used for
         # the oracle (|B|'W^2|z| and max(|eta|, |z|)), from the model's own step beta1
-        rel_res = rel_res * r['rhs_norm'] / (r['rhs_abs_norm'] + 1e-300)
+        # (the residual rhs - N beta is a difference of terms of size |B|'W^2|z| and |A||beta| — the latter is 1e9-weighted
+        # when constraints are active — so its rounding noise is relative to their sum)
+        rel_res = rel_res * r['rhs_norm'] / (r['rhs_abs_norm'] + r.get('Abeta_abs_norm', 0.0) + 1e-300)
         rel_lp = float(np.linalg.norm(r['B'] @ (beta1 - r['coef'])) / r['lp_scale'])
         bad_step = None
         if r.get('zero_solution'):
             # coef_ is rounding noise around the exact optimum 0 (no information in the kept rows): relative residuals of
             # the model step at coef_ are noise / noise; the oracle above judged the claim beta = 0
             ctx.count('zero solution (judged as the claim beta = 0)', 'n')
-        elif judged_ii and not (rel_res <= thr * 10):
-            bad_step = 'model score residual %.3g (relative to the right-hand side) > %.3g' % (rel_res, thr * 10)
-        elif judged_ii and not (rel_lp <= thr):
-            bad_step = 'linear predictor moves by %.3g (relative) under one model step > %.3g' % (rel_lp, thr)
-        elif abs(rel_lp - r['newton_lp']) > 1e-3 * max(rel_lp, r['newton_lp']) + 10 * thr and judged_ii:
+        elif judged_m and not (rel_res <= thr_m * 10):
+            bad_step = 'model score residual %.3g (relative to the right-hand side) > %.3g' % (rel_res, thr_m * 10)
+        elif judged_m and not (rel_lp <= thr_m):
+            bad_step = 'linear predictor moves by %.3g (relative) under one model step > %.3g' % (rel_lp, thr_m)
+        elif abs(rel_lp - r['newton_lp']) > 1e-3 * max(rel_lp, r['newton_lp']) + 10 * thr_m and judged_m:
             bad_step = 'model step and NumPy Newton step disagree: %.3g vs %.3g' % (rel_lp, r['newton_lp'])
         if bad_step and not oracle_bad:
             ctx.disagree(st, sig, dict(last_diff=r['last_diff'], be_norm=r['be_norm'], newton_lp=r['newton_lp'], cond=r['cond']), dict(rel_score_residual=rel_res, rel_lp_change=rel_lp), bad_step)
@@ -328,7 +361,7 @@ def run(ctx):
             ctx.case(st_cf, sig, nontrivial=nontriv)
             mp_ = r['B'] @ beta1
             dm = float(np.abs(mp_ - r['pred']).max() / (max(np.abs(r['pred']).max(), np.abs(mp_).max()) + 1e-300))
-            if dm > max(1e-6, thr) and not oracle_bad:
+            if dm > max(1e-6, thr_m) and not oracle_bad:
                 ctx.disagree(st_cf, sig, dict(pred=r['pred'][:5].tolist()), dict(model=mp_[:5].tolist(), reldiff=dm), 'model closed form differs from the fitted values')
     ctx.partial.append('solve_correct is proved under the LAPACK/Cholesky contracts (validated numerically each run), not for LAPACK itself; IEEE rounding and the sqrt(eps) ridge are not modelled')
 
